@@ -23,6 +23,7 @@ EXHAUSTIVE = {
     "quick": {"component permutations R<=3, component subsets R<=3, fixsigns reference sign patterns 2^N for N<=3": "complete"},
     "thorough": {"component permutations R<=4, component subsets R<=4, sign patterns 2^N for N<=4 x every component": "complete"},
 }
+STRIDED_ARGS = True   # a quarter of the cases pass every array argument as a strided, non-contiguous view (core.Ctx.begin)
 WATCHDOG = {"quick": 600, "thorough": 3000}
 TOL = 1e-10
 
